@@ -162,6 +162,18 @@ def r1(R):
         if t in env["EXPONENTIALS"]:
             R.check(cs[0].group("type") in "eEgG", "C18.R1", CF, 1, "FORMATS", "strain title %r -> %r" % (t, f),
                     "strain/stress columns (~1e-4) need an exponent format: %r prints zeros" % f)
+    # U and UBI are general 3x3 matrices: all nine elements of each are orientation titles (a title that is not in the table is
+    # written with the fallback "%f", six decimals)
+    for base in ("U", "UBI"):
+        for i_ in (1, 2, 3):
+            for j_ in (1, 2, 3):
+                t = "%s%d%d" % (base, i_, j_)
+                f = formats.get(t)
+                c = conversions(f)[0] if f and conversions(f) else None
+                R.check(c is not None and c.group("prec") is not None and int(c.group("prec")) >= 9, "C18.R1", CF, 1, "FORMATS",
+                        "orientation title %r has a format with >= 9 decimals (%r)" % (t, f),
+                        "the matrix element %s is %s: it is written with 6 decimals while the other elements of the same matrix keep 12, so an "
+                        "orientation read back from a text columnfile is orthonormal only to 1e-6" % (t, "not in the FORMATS table (fallback '%f')" if f is None else "formatted %r" % f))
     w = m.ifunc("columnfile.writefile", keep=("chkarray",))   # private helpers (row format builder, ...) read as if written here
     rd = m.nfunc("columnfile.readfile")
     ws = str_consts(w)
@@ -597,12 +609,48 @@ def r5(R):
     w = m.nfunc("grain.to_h5py_group")
     rd = m.nfunc("grain.from_h5py_group")
     uw, ur = ast.unparse(w), ast.unparse(rd)
-    R.check("save_array(grain_group, 'ubi', self.ubi)" in uw and "grain_group['ubi'][:]" in ur, "C18.R5", GR, w.lineno, "grain.to_h5py_group",
-            "'ubi' dataset written and read whole", "ubi dataset name or slicing differs between writer and reader")
-    R.check("for attr in STRINGATTRS + NUMATTRS" in uw and "grain_group[attr] = value" in uw, "C18.R5", GR, w.lineno, "grain.to_h5py_group",
-            "scalars: STRINGATTRS + NUMATTRS", "writer attribute table changed")
-    R.check("for attr in ARRATTRS" in uw and "save_array(grain_group, attr, getattr(self, attr))" in uw, "C18.R5", GR, w.lineno, "grain.to_h5py_group",
-            "arrays: ARRATTRS via save_array", "array attributes are not written")
+    # writer, by role: save_array(<group>, <name>, <value>) calls and <group>[<name>] = <value> stores, values resolved through locals
+    gname = None
+    rg = [c for c in ast.walk(w) if isinstance(c, ast.Call) and isinstance(c.func, ast.Attribute) and c.func.attr == "require_group"]
+    if rg and isinstance(getattr(rg[0], "_parent", None), ast.Assign):
+        gname = src(rg[0]._parent.targets[0])
+    R.shape(gname is not None, "C18.R5", GR, "grain.to_h5py_group", "the group created with require_group")
+    saves = [c for c in ast.walk(w) if isinstance(c, ast.Call) and src(c.func) == "save_array" and len(c.args) == 3 and src(c.args[0]) == gname]
+    ubi_saves = [c for c in saves if pyfacts.resolved_src(w, c.args[2], 3, keep=("self",)).replace(" ", "") == "self.ubi"]
+    R.shape(len(ubi_saves) == 1, "C18.R5", GR, "grain.to_h5py_group", "one save_array(<group>, <name>, self.ubi) call")
+    wname = ubi_saves[0].args[1]
+    R.check(isinstance(wname, ast.Constant) and wname.value == "ubi" and "grain_group['ubi'][:]" in ur, "C18.R5", GR, ubi_saves[0].lineno, "grain.to_h5py_group",
+            "'ubi' dataset written (%s) and read whole" % src(wname), "ubi dataset name or slicing differs between writer and reader")
+
+    def loop_over(fn_, tables):
+        out = []
+        for l in ast.walk(fn_):
+            if isinstance(l, ast.For) and isinstance(l.target, ast.Name):
+                names = set(x.id for x in ast.walk(l.iter) if isinstance(x, ast.Name))
+                if set(tables) <= names and names <= set(tables) | {"list", "tuple", "sorted"}:
+                    out.append(l)
+        return out
+
+    def value_is_getattr(fn_, v, var):
+        r = pyfacts.resolved(fn_, v, 3, keep=("self", var))
+        return isinstance(r, ast.Call) and src(r.func) == "getattr" and len(r.args) >= 2 and src(r.args[0]) == "self" and src(r.args[1]) == var
+    sl = loop_over(w, ("STRINGATTRS", "NUMATTRS"))
+    if not sl:
+        sl = loop_over(w, ("STRINGATTRS",)) + loop_over(w, ("NUMATTRS",))
+        R.shape(len(sl) == 2, "C18.R5", GR, "grain.to_h5py_group", "the loop(s) over STRINGATTRS and NUMATTRS")
+    for l in sl:
+        var = l.target.id
+        st = [x for x in ast.walk(l) if isinstance(x, ast.Assign) and isinstance(x.targets[0], ast.Subscript) and src(x.targets[0].value) == gname]
+        R.shape(len(st) == 1, "C18.R5", GR, "grain.to_h5py_group", "one store <group>[<attr>] = <value> in the loop over the scalar attribute tables")
+        R.check(src(st[0].targets[0].slice) == var and value_is_getattr(w, st[0].value, var), "C18.R5", GR, st[0].lineno, "grain.to_h5py_group",
+                "scalars: %s[%s] = getattr(self, %s) for %s" % (gname, src(st[0].targets[0].slice), var, src(l.iter)), "a scalar attribute is written under another name or with another value")
+    al = loop_over(w, ("ARRATTRS",))
+    R.shape(len(al) == 1, "C18.R5", GR, "grain.to_h5py_group", "the loop over ARRATTRS")
+    var = al[0].target.id
+    asv = [c for c in saves if any(c is x for x in ast.walk(al[0]))]
+    R.shape(len(asv) == 1, "C18.R5", GR, "grain.to_h5py_group", "one save_array call in the loop over ARRATTRS")
+    R.check(src(asv[0].args[1]) == var and value_is_getattr(w, asv[0].args[2], var), "C18.R5", GR, asv[0].lineno, "grain.to_h5py_group",
+            "arrays: save_array(%s, %s, getattr(self, %s))" % (gname, src(asv[0].args[1]), var), "an array attribute is written under another name or with another value")
     for table, conv in (("STRINGATTRS", "[()].decode()"), ("NUMATTRS", "[()])"), ("ARRATTRS", "[:])")):
         loops = [n for n in ast.walk(rd) if isinstance(n, ast.For) and src(n.iter) == table]
         ok = len(loops) == 1 and conv in ast.unparse(loops[0]) and "setattr(g, attr" in ast.unparse(loops[0])
